@@ -159,6 +159,7 @@ var FormatListFunc = function.New(&function.Spec{
 		for iterIdx := 0; iterIdx < iterLen; iterIdx++ {
 
 			// Construct our arguments for a single format call
+			anyUnknown := false
 			for i := range fmtArgs {
 				switch {
 				case iterators[i] != nil:
@@ -177,9 +178,14 @@ var FormatListFunc = function.New(&function.Spec{
 					// We require all nested values to be known because the only
 					// thing we can do for a collection/structural type is print
 					// it as JSON and that requires it to be wholly known.
-					ret = append(ret, cty.UnknownVal(cty.String).RefineNotNull())
-					continue Results
+					// (We still visit the remaining arguments, so that every
+					// iterator advances once per result.)
+					anyUnknown = true
 				}
+			}
+			if anyUnknown {
+				ret = append(ret, cty.UnknownVal(cty.String).RefineNotNull())
+				continue Results
 			}
 
 			str, err := formatFSM(fmtStr, fmtArgs)
